@@ -1139,6 +1139,14 @@ INVALID = [
     ('bad-peer-command', 'delete neighbor 9.9.9.9', 'peer delete 9.9.9.9'),
 ]
 
+INVALID += [
+    # what follows `rib clear` / `rib flush` is a direction and nothing else (a mistyped direction, or the address of a neighbor in the
+    # place where `rib show out` takes one, used to be ignored: every neighbor was cleared and the answer was done)
+    ('rib-argument', 'clear adj-rib banana', 'rib clear banana'), ('rib-argument', 'clear adj-rib', 'rib clear'), ('rib-argument', 'flush adj-rib in', 'rib flush in'),
+    ('rib-argument', 'clear adj-rib out 127.0.0.2', 'rib clear out 127.0.0.2'), ('rib-argument', 'flush adj-rib out 127.0.0.2', 'rib flush out 127.0.0.2'),
+]
+
+
 VALID = [
     ('announce', 'announce route 10.0.0.0/24 next-hop 1.2.3.4 med 5', 'peer * announce route 10.0.0.0/24 next-hop 1.2.3.4 med 5'),
     ('withdraw', 'withdraw route 10.8.0.0/24', 'peer * withdraw route 10.8.0.0/24'),
